@@ -1,0 +1,52 @@
+//go:build verif
+
+package memberlist
+
+import (
+	"context"
+
+	"github.com/go-kit/log"
+	"github.com/hashicorp/memberlist"
+
+	"github.com/grafana/dskit/services"
+)
+
+// Hooks for the verification harness in /verif (build tag "verif"). Add-only.
+
+// VerifNewDetachedKV builds a KV that is detached from the network transport: no memberlist
+// instance is created and nothing listens. The delegate methods (GetBroadcasts, NotifyMsg,
+// LocalState, MergeRemoteState) are ready, the broadcast queues use the injected cluster size,
+// and the embedded service is an idle service in Running state, so that a harness can play the
+// network itself.
+func VerifNewDetachedKV(cfg KVConfig, logger log.Logger, numNodes func() int) (*KV, error) {
+	m := NewKV(cfg, logger, nil, nil)
+	m.localBroadcasts = &memberlist.TransmitLimitedQueue{NumNodes: numNodes, RetransmitMult: cfg.RetransmitMult}
+	m.gossipBroadcasts = &memberlist.TransmitLimitedQueue{NumNodes: numNodes, RetransmitMult: cfg.RetransmitMult}
+	m.NamedService = services.NewIdleService(nil, nil).WithName("memberlist_kv_detached")
+	if err := services.StartAndAwaitRunning(context.Background(), m.NamedService); err != nil {
+		return nil, err
+	}
+	m.delegateReady.Store(true)
+	return m, nil
+}
+
+// VerifShutdown stops a detached KV: per-key workers and watchers exit, the idle service stops.
+func (m *KV) VerifShutdown() {
+	close(m.shutdown)
+	_ = services.StopAndAwaitTerminated(context.Background(), m.NamedService)
+}
+
+// VerifCleanupObsoleteEntries runs the periodic clean-up of deleted keys once.
+func (m *KV) VerifCleanupObsoleteEntries() { m.cleanupObsoleteEntries() }
+
+// VerifNumQueued returns the number of queued broadcasts (local, forwarded).
+func (m *KV) VerifNumQueued() (int, int) {
+	return m.localBroadcasts.NumQueued(), m.gossipBroadcasts.NumQueued()
+}
+
+// VerifInvalidates exposes ringBroadcast.Invalidates for two broadcasts described by key, content and version.
+func VerifInvalidates(newKey string, newContent []string, newVersion uint, oldKey string, oldContent []string, oldVersion uint) bool {
+	n := ringBroadcast{key: newKey, content: newContent, version: newVersion}
+	o := ringBroadcast{key: oldKey, content: oldContent, version: oldVersion}
+	return n.Invalidates(o)
+}
